@@ -105,6 +105,8 @@ def u_numerical(root):
         e.oblige("integrand handed to quad is the density at the current parameters", st, r.real() == dens(t, P))
         return VTuple([VNum(integral(P, lo.real(), hi.real())), VOpaque("abserr")])
     eng.lib["integrate.quad"] = quad
+    for other in ("fixed_quad", "quadrature", "romberg", "simpson", "trapezoid"):          # not the adaptive rule the contract assumes: an unrelated number
+        eng.lib["integrate." + other] = lambda e, st, a, kw, n, other=other: VTuple([VNum(fresh("integrate_" + other, R)), VNum(fresh("err", R))])
     c = Contract("HistParametricModel", "_bin_evaluation_numerical")
     c.requires += [lambda vw: nE >= 1, lambda vw: H("_data", "seq", "len")[me] == nE + 1]
 
